@@ -99,7 +99,7 @@ def classified : List (String × Bool) := [
   ("verit_sko_ex", false),
   ("verit_sko_forall", false),
   ("verit_subproof", true),
-  ("verit_sum_simplify", false),
+  ("verit_sum_simplify", true),
   ("verit_th_resolution", true),
   ("verit_trans", true),
   ("verit_unary_minus_simplify", true),
@@ -120,7 +120,7 @@ theorem registry_classified : classified.map (·.1) = Gen.namesSorted := by deci
 theorem tier1_modelled : ∀ r ∈ Rule.all, (r.name, true) ∈ classified := by decide +kernel
 
 /-- … plus `verit_la_generic`, whose model (ModelLA.lean) works on parsed linear arithmetic -/
-theorem tier1_count : tier1.length = Rule.all.length + 7 ∧ ("verit_la_generic", true) ∈ classified
+theorem tier1_count : tier1.length = Rule.all.length + 8 ∧ ("verit_la_generic", true) ∈ classified
     ∧ ("verit_div_simplify", true) ∈ classified ∧ ("verit_eq_simplify", true) ∈ classified
     ∧ ("verit_comp_simplify", true) ∈ classified ∧ ("verit_minus_simplify", true) ∈ classified
     ∧ ("verit_unary_minus_simplify", true) ∈ classified := by decide +kernel
